@@ -78,6 +78,7 @@ class AsyncSimpleClient:
         def __disconnect_final():  # pragma: no cover
             self.connected = False
             self.connected_event.set()
+            self.input_event.set()
 
         @self.client.on('*', namespace=self.namespace)
         def on_event(event, *args):  # pragma: no cover
